@@ -20,7 +20,8 @@
    Simplifications: capacity growth is `max(needed, 2*cap)` (Go additionally rounds up to a size
    class; only "cap may exceed len" matters here); CorrectionSet.Def's HasSuffix test is schema
    equality.  `copying = false` is the code as shipped; `copying = true` is the repaired
-   TagSet.Merge (`nl := make(.., len(ts.List)); copy(nl, ts.List)`).  No proofs in this file. *)
+   TagSet.Merge (`nl := make(.., len(ts.List), len(ts.List)+len(other.List)); copy(nl, ts.List)`,
+   fixes/C15-1-tagset-merge-copy.diff).  No proofs in this file. *)
 From Coq Require Import List ZArith Bool.
 Import ListNotations.
 Local Open Scope nat_scope.
@@ -121,7 +122,7 @@ Definition tagset_merge (copying : bool) (h : heap) (ts other : option tagset) :
   | Some t, Some o =>
     if negb (ts_schema t =? ts_schema o)%Z then (h, ts)
     else
-      let '(h1, nl) := if copying then alloc h (read h (ts_list t)) (len (ts_list t))
+      let '(h1, nl) := if copying then alloc h (read h (ts_list t)) (len (ts_list t) + len (ts_list o))
                        else (h, ts_list t)                  (* nl := ts.List // shallow copy *) in
       let '(h2, nl') := merge_loop h1 nl (ts_list o) (seq 0 (len (ts_list o))) in
       (h2, Some (mkTagset (ts_schema t) nl'))
